@@ -404,6 +404,14 @@ fn fci_hist(f: &FciSpec, ch: &mut Ch) -> FciHolder<'static> {
         FciSpec::Fir(v) => {
             // re-adding an SSRC keeps the last sequence: junk sequences may precede the spec's adds
             let mut b = Fir::builder();
+            if ch.flag() {
+                // a first pass with junk sequences for every SSRC: each real add below is then a re-add that is
+                // separated from its first add by the other SSRCs
+                ch.overwrites += 1;
+                for (s, q) in v {
+                    b = b.add_ssrc(*s, q.wrapping_add(7));
+                }
+            }
             for (s, q) in v {
                 ch.probe_fci(&b);
                 if ch.flag() {
